@@ -95,7 +95,8 @@ CHECKS = {
              "structural byte string (quick: all unprefixed + prefixed x 35 second-byte classes; thorough: all 1.1M) is run "
              "through the four real consumers (instruction-info / text / low-level-IL callbacks, emulator fetch) in its base "
              "form, with three trailing contexts (valid / rejected / assertion-tripping bytes), every truncation and after an "
-             "adversarial decode history; TLC judges every recorded row (JudgeDecode.tla): LenBounds, ConsumersAgree, "
+             "adversarial decode history; in the follower campaign a few valid bases are followed by every one of the 65536 two-byte "
+             "instruction heads; TLC judges every recorded row (JudgeDecode.tla): LenBounds, ConsumersAgree, "
              "IndependentOfLaterBytes, IndependentOfHistory, NoUnexpectedError, plus comparison with the reference format (drift).",
         design_ref="DESIGN.md section 4 (C01)",
         note="Trusted: TLC, harness/py/decode_harness.py, binja_test_mocks. Operand bytes after the second byte are seeded fill. A genuine defect found by this check was repaired (fix: commit in /repo, recorded in known_findings.json).",
@@ -136,7 +137,8 @@ CHECKS = {
         text="Complete comparison, evaluated by TLC (spec/tables/Tables.tla over the reference table spec/isa/SC62015Table.tla): all 256 "
              "opcode rows of the live Python table and the live Rust table in a normalised operand-shape vocabulary, the PRE table, "
              "the single-addressable set, ~90 constant/layout groups (register storage sizes, effective masks probed by writing "
-             "0xFFFFFFFF, sub-register layout declared and probed, IMEM offsets, IMR/ISR bits, interrupt/reset vector addresses declared "
+             "0xFFFFFFFF, sub-register layout declared and probed, IMEM offsets, the keyboard register block as named and as selected by the "
+             "Rust memory predicates over all 256 offsets, IMR/ISR bits, interrupt/reset vector addresses declared "
              "and probed by executing IR/RESET/power-on-reset on both cores, address-space constants) and the Binary Ninja view segments "
              "(pairwise disjoint, inside the address space, internal RAM placement). No state space: TLC evaluates equalities over finite tables.",
         design_ref="DESIGN.md section 4 (C17)",
@@ -170,7 +172,8 @@ CHECKS = {
              "step on the real Rust CoreRuntime and the real Python PCE500Emulator (instruction bytes poked at the PC, timer expiries - also both at once -, ON key and matrix keys "
              "with strobe / KIL-read instructions injected at instruction boundaries); TraceMachine.tla evaluates the clauses of C12 on every "
              "recorded step (pushed frame contents, delivery counter and reported source, registers, power state, timer targets) with monitors "
-             "for saved frames (incl. the source each was entered for) and expected resume addresses; StatusNotLost: a status bit goes away only "
+             "for saved frames (incl. the source each was entered for) and expected resume addresses; every third script also runs on a Rust runtime "
+             "built with keyboard interrupts disabled (the spec is told: KEYI then neither arms nor wakes); StatusNotLost: a status bit goes away only "
              "by a firmware write or at the RETI of the handler entered for it.",
         design_ref="DESIGN.md section 4 (C12)",
         note="Trusted: TLC, vh rt module, harness/py/machine_harness.py. One defect repaired (fix: a24bc1d, Rust RETI acknowledged the live irq_source latch); open findings on the Python machine (master-enable override, OFF = HALT, pending flag not re-armed, stale source attribution) and the Rust core (stray RETI clears a pending bit) are listed in known_findings.json. The debounce automaton itself is covered by C14.",
@@ -249,7 +252,9 @@ CHECKS = {
              "random/boundary states (registers, flags, BP/PX/PY, pointer cells, code placed at page boundaries) on identical sparse "
              "buses; TLC (JudgeParity.tla over SC62015Format.tla) judges every pair: same registers, C/Z, PC, low-power state, consumed "
              "length (also against the format specification) and same final contents of every location either core wrote. Seeded "
-             "random looping programs are run in lockstep on both cores.",
+             "random looping programs and structured call / return programs (near and far calls, a far jump between call and return, "
+             "mismatched pairs, returns without a call) are run in lockstep on both cores; block moves with an external operand also "
+             "with block lengths 0x100-0x234 (registers, flags and the set of external addresses written).",
         design_ref="DESIGN.md section 4 (C06)",
         note="Trusted: vh exec module (sparse recording bus), harness/py/exec_harness.py, binja_test_mocks LLIL evaluator, TLC. Nine open known findings (opcode-keyed root causes) and one fixed defect are listed in known_findings.json; counted instructions get block lengths 1..6, BCD instructions valid BCD digits.",
         technique="TLA+ format spec + TLC-judged differential execution (translation validation between the Python and Rust cores)",
